@@ -241,6 +241,35 @@ func openLiteral(src []byte, filename string) ([]byte, bool) {
 				if !ok || len(as.Rhs) != 1 || as.Rhs[0] != ast.Expr(call) {
 					continue
 				}
+				// `if x, err = h(..); err == nil { S }` followed by a plain return is
+				// `x, err = h(..); if err != nil { return }; S` in front of that return: the
+				// failing way out gets an exit of its own instead of meeting the others
+				if be, isB := ifs.Cond.(*ast.BinaryExpr); isB && be.Op == token.EQL && i+1 < len(list) {
+					yid, yok := be.Y.(*ast.Ident)
+					_, xok := be.X.(*ast.Ident)
+					if ret, isRet := list[i+1].(*ast.ReturnStmt); isRet && xok && yok && yid.Name == "nil" {
+						simple := true
+						for _, rv := range ret.Results {
+							switch rv.(type) {
+							case *ast.Ident, *ast.BasicLit:
+							default:
+								simple = false
+							}
+						}
+						if simple {
+							guard := &ast.IfStmt{Cond: &ast.BinaryExpr{X: be.X, Op: token.NEQ, Y: be.Y}, Body: &ast.BlockStmt{List: []ast.Stmt{&ast.ReturnStmt{Results: ret.Results}}}}
+							ifs.Init = nil
+							// (the return is repeated at the end of the block, so that a helper opened
+							// as the last statement of S is in tail position; the one behind the block
+							// is then unreachable)
+							blk := append([]ast.Stmt{as, guard}, ifs.Body.List...)
+							blk = append(blk, &ast.ReturnStmt{Results: ret.Results})
+							list[i] = &ast.BlockStmt{List: blk}
+							hoisted = true
+							continue
+						}
+					}
+				}
 				ifs.Init = nil
 				list[i] = &ast.BlockStmt{List: []ast.Stmt{as, ifs}}
 				hoisted = true
